@@ -311,7 +311,7 @@ class CellTrainer(Module):
         This will apply all updates, not only those created by this trainer.
         """
         for updater in unique(
-            filter(lambda c: c is not None, map(lambda c: c.updater, self.cells))
+            filter(lambda u: u is not None, map(lambda c: c[0].updater, self.cells))
         ):
             updater(**kwargs)
 
